@@ -222,7 +222,10 @@ ROLES = {
     "FREE_HEAD_WRITE": dict(owner=VARFILE, module=M_PIECE, name="write_free_piece_offset_on_header", shape=lambda p, f: len(f.inputs) == 3 and short(f.inputs[1]).startswith("Size<Piece<") and short(f.inputs[2]).startswith("Offset<Piece<") and short(f.output) == "Result<(), Error>"),
     "FREE_COUNT": dict(owner=VARFILE, module=M_PIECE, name="count_of_free_piece_list",
                        shape=lambda p, f: len(f.inputs) == 2 and short(f.output) == "Result<u64, Error>" and f.module == M_PIECE),
-    "FREE_SIZE_NEXT": dict(owner=VARFILE, module=M_PIECE, name="read_free_piece_size_next", shape=lambda p, f: len(f.inputs) == 2 and short(f.output).startswith("Result<(Size<Piece<") ),
+    "FREE_SIZE_NEXT": dict(owner=VARFILE, module=M_PIECE, name="read_free_piece_size_next",
+                           shape=lambda p, f: len(f.inputs) == 2 and short(f.inputs[1]).startswith("Offset<") and short(f.output).startswith("Result<") and f.impl_trait is None
+                           and (short(f.output).startswith("Result<(Size<Piece<") or
+                                ({"read_piece_size", "read_free_piece_offset"} <= _callee_names(f) and not _calls_any(f, ("write_free_piece_offset", "write_piece_size", "write_zero", "write_zero_to_offset"))))),
     "ROUNDUP": dict(owner=PIECEMGR, name="roundup",
                     shape=lambda p, f: len(f.inputs) == 2 and short(f.inputs[0]) == "&PieceMgr" and short(f.output).startswith("Size<Piece<")),
     "FREE_HEAD_OFFSET": dict(owner=PIECEMGR, name="free_piece_list_offset_of_header", shape=lambda p, f: len(f.inputs) == 2 and short(f.inputs[0]) == "&PieceMgr" and short(f.output) == "u64"),
@@ -268,6 +271,47 @@ ROLES = {
     "ITER_NEW": dict(owner=ITERMUT, name="new",
                      shape=lambda p, f: len(f.inputs) == 1 and short(f.output).startswith("Result<DbXxxIterMut<") and f.impl_self_adt == ITERMUT),
 }
+
+
+def free_head_components(prog, roles_obj):
+    """(projection of the slot size, projection of the next link) in the Ok payload of FREE_SIZE_NEXT: ('f:0', 'f:1') for the
+    released tuple; decided by which field primitive each component of the returned aggregate comes from, so a tuple in
+    another order or a small struct is read correctly."""
+    cache = prog.__dict__.setdefault("_free_head_components", {})
+    if "v" in cache:
+        return cache["v"]
+    res = ("f:0", "f:1")
+    try:
+        from .util import tracer, is_call_to
+        f = roles_obj.need("FREE_SIZE_NEXT")
+        rs, rn = roles_obj.need("R_PIECE_SIZE"), roles_obj.need("R_FREE_OFFSET")
+        tr = tracer(prog, f)
+        for b in f.return_blocks():
+            for o in tr.place({"l": 0, "p": []}, at=b):
+                if o.kind != "agg" or o.data.get("variant") != "Ok" or len(o.data.get("ops", [])) != 1:
+                    continue
+                for a in tr.operand(o.data["ops"][0], at=o.block):
+                    if a.kind != "agg" or len(a.data.get("ops", [])) != 2:
+                        continue
+                    if a.data.get("agg") == "tuple":
+                        names = ["f:0", "f:1"]
+                    elif a.data.get("agg") == "adt" and a.data.get("fields"):
+                        names = ["f:%s.%s" % (a.data["adt"].rsplit("::", 1)[-1], x) for x in a.data["fields"]]
+                    else:
+                        continue
+                    sz = nx = None
+                    for nm, op in zip(names, a.data["ops"]):
+                        src = tr.operand(op, at=a.block)
+                        if src and all(is_call_to(prog, f, x, rs) for x in src):
+                            sz = nm
+                        if src and all(is_call_to(prog, f, x, rn) for x in src):
+                            nx = nm
+                    if sz and nx:
+                        res = (sz, nx)
+    except AnchorError:
+        pass
+    cache["v"] = res
+    return res
 
 
 def resolve(prog, role):
